@@ -79,7 +79,37 @@ def _get_engine(name):
 
 
 def _worker_chunk(task):
-    """Execute a chunk of run indices. Returns a list of compact result dicts."""
+    """Execute a chunk of run indices in a process of its own, forked from the (warm) pool worker: the
+    process-level history of a run is then exactly the earlier runs of its chunk - bounded and replayable -
+    and a crash of the system under test (segfault) kills that child only."""
+    import pickle
+
+    r, wfd = os.pipe()
+    pid = os.fork()
+    if pid == 0:
+        code = 0
+        try:
+            os.close(r)
+            data = pickle.dumps(_run_chunk(task))
+            with os.fdopen(wfd, "wb") as f:
+                f.write(data)
+        except BaseException:
+            code = 1
+        finally:
+            os._exit(code)
+    os.close(wfd)
+    with os.fdopen(r, "rb") as f:
+        data = f.read()
+    _, status = os.waitpid(pid, 0)
+    if not data:
+        res = core.RunResult.new()
+        res["harness_error"] = f"chunk process died (wait status {status}) while running indices {task[6]} of batch {task[4]}"
+        res["batch"], res["index"], res["seed"] = task[4], task[6][0], None
+        return [res]
+    return pickle.loads(data)
+
+
+def _run_chunk(task):
     prop, tier, base, engine_name, batch, cfg, indices, keep_plans, per_run_timeout = task
     eng = _get_engine(engine_name)
     out = []
@@ -96,6 +126,7 @@ def _worker_chunk(task):
                 res["batch"] = batch
                 res["index"] = idx
                 res["seed"] = seed
+                res["chunk"] = [indices[0], idx]  # process history: the runs of this chunk up to this one
                 if res["violations"] or res["harness_error"] or idx < keep_plans:
                     res["plan"] = plan
                 out.append(res)
@@ -309,6 +340,21 @@ def triage(prop, tier, base, spec, agg, repo, do_shrink=True):
             core.save_replay(path, header, plan)
             rc, out = _replay_in_fresh_process(path, prop, repo)
             reproduced = rc == 1 and "REPRODUCED" in out
+        if not reproduced and res.get("chunk") and res["chunk"][1] > res["chunk"][0]:
+            # process-level history: state kept by the library across objects (a module-level cache, a class
+            # attribute) makes a run depend on the runs executed before it in the same process. Replay the
+            # earlier runs of its chunk first (their own verdicts are ignored).
+            cfg = [b for b in spec["batches"][tier] if b["name"] == res["batch"]][0]["cfg"]
+            prelude = []
+            for j in range(res["chunk"][0], res["chunk"][1]):
+                prelude.extend(eng.generate(prop, core.run_seed(base, prop, tier, res["batch"], j), cfg))
+            header["ops_after_shrink"] = header["ops_before_shrink"]
+            header["prelude_runs"] = len(prelude)
+            core.save_replay(path, header, plan, prelude)
+            rc, out = _replay_in_fresh_process(path, prop, repo)
+            reproduced = rc == 1 and "REPRODUCED" in out
+            if reproduced:
+                lines.append(f"NOTE class below only reproduces after the {len(prelude)} earlier runs of its process (state kept across objects); they are part of the replay file")
         if reproduced:
             n_viol += 1
             lines.append(f"VIOLATION property={prop} replay={path}")
@@ -377,6 +423,8 @@ def write_evidence(prop, tier, base, spec, agg, n_viol, repo, path=None):
 def do_replay(prop, spec, path):
     header, plan = core.load_replay(path)
     eng = _get_engine(plan.get("engine", header.get("engine", spec["engine"])))
+    for pre in core.load_prelude(path):
+        eng.execute(pre, prop)  # process history only; not judged
     res = eng.execute(plan, prop)
     want = header.get("violation_class")
     got = sorted({violation_class(v) for v in res["violations"]})
